@@ -2,6 +2,7 @@ package checks
 
 import (
 	"fmt"
+	"strings"
 	"time"
 
 	"verif/sim"
@@ -10,12 +11,14 @@ import (
 
 // HistOpts selects what a history run generates and which oracles run after each step.
 type HistOpts struct {
-	Profiles   []string
-	MinTx      int
-	MaxTx      int
-	Oracles    map[string]bool // C01 C02 C09 ...
-	Allowed    map[string]bool // edit kinds allowed (nil = all)
-	Capture    bool
+	Profiles []string
+	MinTx    int
+	MaxTx    int
+	Oracles  map[string]bool // C01 C02 C09 ...
+	Allowed  map[string]bool // edit kinds allowed (nil = all)
+	Capture  bool
+	// DevKinds: device front ends to draw from (nil = direct only); see world.Opts.DevKind
+	DevKinds   []string
 	AfterStep  func(h *Hist, step int, tx *TxSpec, res *TxResult)
 	BeforeStep func(h *Hist, step int) *TxSpec // may return a custom tx (nil = generate)
 }
@@ -48,6 +51,14 @@ func NewHist(rc *sim.RunCtx, o HistOpts) (*Hist, error) {
 	profile := o.Profiles[t.Choose(len(o.Profiles))]
 	cfg := SwarmCfg(t, profile, o.Allowed)
 	wo := world.Opts{DisableConcurrency: t.Bool(1, 2), CaptureEncodings: o.Capture}
+	if len(o.DevKinds) > 0 {
+		wo.DevKind = o.DevKinds[t.Choose(len(o.DevKinds))]
+		if wo.DevKind == "direct" {
+			wo.DevKind = ""
+		} else {
+			wo.CaptureEncodings = false
+		}
+	}
 	if wo.DisableConcurrency {
 		rc.Buggify("validation-sequential")
 	}
@@ -57,7 +68,8 @@ func NewHist(rc *sim.RunCtx, o HistOpts) (*Hist, error) {
 	}
 	h := &Hist{RC: rc, W: w, M: NewModel(w.SI), Cfg: cfg, Ops: o}
 	h.G = NewGen(t, w.SI, cfg)
-	rc.Scenario("profile=%s weights=%v forms=%v seqvalidation=%t", profile, cfg.W, cfg.FormW, wo.DisableConcurrency)
+	rc.Scenario("profile=%s weights=%v forms=%v seqvalidation=%t device=%s", profile, cfg.W, cfg.FormW, wo.DisableConcurrency, devName(wo.DevKind))
+	rc.Probe("dev-" + devName(wo.DevKind))
 	r0 := h.G.GenR0()
 	if err := w.SeedRunning(r0); err != nil {
 		w.Close()
@@ -112,7 +124,10 @@ func (h *Hist) Step(step int) (tx *TxSpec, res *TxResult) {
 		h.sig(step, tx, pre, "ok")
 		if h.Ops.Oracles["C01"] {
 			OracleC01(rc, h.W, h.M, step, tx)
-			OracleResponseMatchesDevice(rc, h.W, res, step)
+			if k := h.W.Opts.DevKind; k == "" || k == "gnmi-proto" {
+				// (the JSON encodings do not re-state what is unchanged; their effect is judged by the model and by C10's wire leg)
+				OracleResponseMatchesDevice(rc, h.W, res, step)
+			}
 		}
 		if h.Ops.Oracles["C02"] {
 			OracleC02(rc, h.W, h.M, step, tx)
@@ -120,10 +135,63 @@ func (h *Hist) Step(step int) (tx *TxSpec, res *TxResult) {
 	} else {
 		h.sig(step, tx, pre, "rejected")
 	}
+	if h.W.Shadow != nil {
+		OracleWire(rc, h.W, res, step, tx)
+	}
 	if h.Ops.AfterStep != nil {
 		h.Ops.AfterStep(h, step, tx, res)
 	}
 	return tx, res
+}
+
+func devName(k string) string {
+	if k == "" {
+		return "direct"
+	}
+	return k
+}
+
+// OracleWire (C10, wire leg): what the real target put on the wire must be decodable by the device and must have the same
+// effect on the device as the proto view of the same tree (shadow direct device).
+func OracleWire(rc *sim.RunCtx, w *world.World, res *TxResult, step int, tx *TxSpec) {
+	f := map[string]string{"device": w.Opts.DevKind, "edits": renderEdits(tx)}
+	for _, rec := range w.Dev.Sets[res.SetsBefore:res.SetsAfter] {
+		if rec.WireErr != "" {
+			ff := copyFields(f)
+			ff["accepted"] = fmt.Sprint(res.Accepted())
+			ff["presence_as_scalar"] = fmt.Sprint(strings.Contains(rec.WireErr, "presence container given as scalar"))
+			rc.Report(sim.Item{Prop: "C10", Clause: "C10.wire-undecodable", Step: step, Fields: ff, Detail: fmt.Sprintf("the %s request built for this transaction cannot be decoded by the device: %s", w.Opts.DevKind, rec.WireErr)})
+			// the shadow applied what the wire device refused: bring it back in line so that later steps are judged on their own
+			w.Shadow.State = w.Dev.State.Clone()
+			return
+		}
+	}
+	if res.SetsAfter == res.SetsBefore {
+		return
+	}
+	a := w.Shadow.State.WithImpliedPresence(w.SI)
+	b := w.Dev.State.WithImpliedPresence(w.SI)
+	// a presence container that exists on the device persists when the wire form does not re-state it (YANG reading, see C10)
+	for k, l := range a {
+		if n := w.SI.Node(l.Path); n != nil && n.Kind == world.KContainer && n.Presence {
+			if _, ok := b[k]; !ok {
+				b[k] = l
+			}
+		}
+	}
+	for k, l := range b {
+		if n := w.SI.Node(l.Path); n != nil && n.Kind == world.KContainer && n.Presence {
+			if _, ok := a[k]; !ok {
+				a[k] = l
+			}
+		}
+	}
+	if d := diffStates(a, b); len(d) > 0 {
+		ff := copyFields(f)
+		ff["diff_kind"] = diffKind(a, b)
+		rc.Report(sim.Item{Prop: "C10", Clause: "C10.wire-effect-differs", Step: step, Fields: ff, Detail: fmt.Sprintf("device state after the %s request differs from the state the proto view of the same tree produces (proto vs wire): %s", w.Opts.DevKind, strings.Join(d, "; "))})
+		w.Shadow.State = w.Dev.State.Clone()
+	}
 }
 
 // sig contributes the per-step behaviour signature (A.4) and non-triviality probes.
@@ -198,7 +266,8 @@ func normErr(err error) string {
 
 func runC01(rc *sim.RunCtx) {
 	h, err := NewHist(rc, HistOpts{Profiles: []string{"core", "core", "presence"}, MinTx: 2, MaxTx: 10,
-		Oracles: map[string]bool{"C01": true, "C02": true}})
+		DevKinds: []string{"direct", "direct", "direct", "gnmi-proto", "gnmi-json", "gnmi-json_ietf"},
+		Oracles:  map[string]bool{"C01": true, "C02": true}})
 	if err != nil {
 		rc.HarnessErr("world: %v", err)
 		return
